@@ -106,8 +106,11 @@ func init() {
 			bfs("lsm", 4, 300, prm("oracle", "c13", "nvk", 3, "keys", 2), seq("Sa Sa Sb Sa T Sa"), seq("Sa Sb F Sa Sb F T"))})
 	planTable["C14"] = lsmPlan("Same state space as C12 including close/re-open transitions; after every transition: levels >= 1 sorted with disjoint ranges, no user key split across two tables of a level, table ids unique, production validate() passes, in-memory levels == MANIFEST == .sst files on disk; Open after any history succeeds.",
 		stateRule,
-		[]Stage{bfs("lsm", 4, 60, prm("oracle", "c14", "keys", 3, "reopen", true))},
-		[]Stage{bfs("lsm", 6, 600, prm("oracle", "c14", "keys", 3, "reopen", true))})
+		[]Stage{bfs("lsm", 4, 60, prm("oracle", "c14", "keys", 3, "reopen", true)),
+			// drops: DropPrefix over a deeper level holding one table per key pair (rewrites of non-adjacent tables must not overlap the table between them)
+			bfs("lsm", 2, 40, prm("oracle", "c29", "mode", "normal", "keyset", "drop", "keys", 6, "drops", true, "reopen", true, "snapshots", false, "l0_tables", 1, "value_threshold", 1024, "big_size", 400, "ops", "Sp1a Sq F C0 Yp1 Yp1,q Yp1a,qq Yp1a,p1 V R"), seq("Bp1a Bp1b Bp2a Bp2b Bq Bqq F C0"))},
+		[]Stage{bfs("lsm", 6, 600, prm("oracle", "c14", "keys", 3, "reopen", true)),
+			bfs("lsm", 4, 600, prm("oracle", "c29", "mode", "normal", "keyset", "drop", "keys", 6, "drops", true, "reopen", true, "snapshots", false, "l0_tables", 1, "value_threshold", 1024, "big_size", 400, "ops", "Sp1a Sq Dp1a F C0 C1 Yp1 Yp1,q Yp1a,qq Yp1a,p1 Yp V R"), seq("Bp1a Bp1b Bp2a Bp2b Bq Bqq F C0"))})
 	planTable["C36"] = lsmPlan("Managed-mode histories with caller-chosen, non-monotonic commit timestamps (CommitAt and per-entry SetEntryAt through a managed write batch), deletes at chosen timestamps, discard-timestamp moves, flushes and compactions; after every transition reads at every timestamp >= the discard timestamp equal the reference model and Item.Version equals the caller's timestamp.",
 		stateRule,
 		[]Stage{bfs("lsm", 4, 60, prm("oracle", "c36", "keys", 1, "managed_ts", true))},
@@ -330,11 +333,12 @@ func init() {
 
 	planTable["C29"] = func(q bool) *Plan {
 		p := &Plan{Level: "model_checking", Engine: "E-seq + E-sched + E-crash",
-			Text:      "Sequences: breadth-first search over histories on keys {p1a,p1b,p2a,q} (writes with inline and value-log values, deletes, flushes, every picker compaction, close/re-open) with DropPrefix for the prefix sets {p1}, {p}, {p1,q}, {p1,p2}, {p1a,p1} (overlapping), {zz} (no match) and DropAll as transitions, from empty and from seeds whose deeper level holds one table per key; after every transition every key read by Get and both iterator directions equals the model (keys with a dropped prefix invisible, every other key unchanged, later writes accepted), levels are structurally valid and equal to MANIFEST and files. Schedules: a transaction writing a dropped and a kept key races DropPrefix / DropAll at the points of the commit pipeline and of the drop: the final state is commit-then-drop, drop-then-commit, or the commit failed with ErrBlockedWrites and left nothing. Crashes: every persistence step of histories containing DropPrefix / DropAll: after recovery the state is a commit-order prefix, or, inside a drop, every key has its pre-drop value or is absent.",
+			Text:      "Sequences: breadth-first search over histories on keys {p1a,p1b,p2a,q} (writes with inline and value-log values, deletes, flushes, every picker compaction, close/re-open) with DropPrefix for the prefix sets {p1}, {p}, {p1,q}, {p1,p2}, {p1a,p1} (overlapping), {p1a,qq} (two non-adjacent tables, each keeping a key), {zz} (no match) and DropAll as transitions, from empty and from seeds whose deeper level holds one table per key; after every transition every key read by Get and both iterator directions equals the model (keys with a dropped prefix invisible, every other key unchanged, later writes accepted), levels are structurally valid and equal to MANIFEST and files. Schedules: a transaction writing a dropped and a kept key races DropPrefix / DropAll at the points of the commit pipeline and of the drop: the final state is commit-then-drop, drop-then-commit, or the commit failed with ErrBlockedWrites and left nothing. Crashes: every persistence step of histories containing DropPrefix / DropAll: after recovery the state is a commit-order prefix, or, inside a drop, every key has its pre-drop value or is absent.",
 			Note:      "Drops run without concurrent readers (documented precondition of DropAll).",
 			Technique: "explicit-state BFS over operation sequences + stateless model checking of commit vs drop + crash-point enumeration, all on the implementation",
 			Rule:      "BFS states = canonical LSM shapes; schedules up to the bound; crash points = every persistence step"}
-		seeds := [][]string{seq("Bp1a Bp2a Bq F C0"), seq("Bp1a Bp1b Bp2a Bq F C0 Sp1a F"), seq("Sp1a Sp2a Sq F")}
+		// first seed: three tables in the deeper level, [p1a p1b] [p2a p2b] [q qq]: a drop of {p1,q} touches the outer two only
+		seeds := [][]string{seq("Bp1a Bp1b Bp2a Bp2b Bq Bqq F C0"), seq("Bp1a Bp1b Bp2a Bq F C0 Sp1a F"), seq("Sp1a Sp2a Sq F")}
 		base := prm("oracle", "c29", "mode", "normal", "keyset", "drop", "keys", 4, "big", false, "drops", true, "reopen", true, "snapshots", false, "l0_tables", 1)
 		withOps := func(m map[string]any, ops string) map[string]any {
 			n := map[string]any{}
@@ -345,18 +349,20 @@ func init() {
 			return n
 		}
 		big := withOps(base, "")
-		big["value_threshold"] = 1024 // 200-byte values stay inline: one table per key in the deeper level
+		big["value_threshold"] = 1024 // big values stay inline and fill a table each: one table per key in the deeper level
+		big["big_size"] = 400
+		big["keys"] = 6
 		if q {
 			p.Stages = []Stage{
 				bfs("lsm", 4, 50, withOps(base, "Sp1a Sp2a Sq Dp1a F C0 Yp1 Yp Yp1,q Yp1,p2 Yp1a,p1 Yzz V R")),
-				bfs("lsm", 3, 50, withOps(big, "Sp1a Sq Dp1a F C0 Yp1 Yp Yp1,q Yp1,p2 Yp1a,p1 V R"), seeds...),
+				bfs("lsm", 3, 50, withOps(big, "Sp1a Sq Dp1a F C0 Yp1 Yp Yp1,q Yp1a,qq Yp1a,p1 V R"), seeds...),
 				sched("c29race", 2, 4, 40, prm("cases", 4)),
 				en("crash08", 16, 60, prm("oracle", "c29", "len", 3, "alphabet", "T2 WB F C DP DA")),
 			}
 		} else {
 			p.Stages = []Stage{
 				bfs("lsm", 5, 900, withOps(base, "Sp1a Sp1b Sp2a Sq Dp1a F C0 C1 Yp1 Yp Yp1,q Yp1,p2 Yp1a,p1 Yzz V R")),
-				bfs("lsm", 4, 600, withOps(big, "Sp1a Sq Dp1a F C0 C1 Yp1 Yp Yp1,q Yp1,p2 Yp1a,p1 V R"), seeds...),
+				bfs("lsm", 4, 600, withOps(big, "Sp1a Sq Dp1a F C0 C1 Yp1 Yp Yp1,q Yp1,p2 Yp1a,qq Yp1a,p1 V R"), seeds...),
 				sched("c29race", 3, 4, 600, prm("cases", 4)),
 				en("crash08", 16, 900, prm("oracle", "c29", "len", 5, "alphabet", "T2 TV WB F C DP DA R")),
 			}
